@@ -72,7 +72,10 @@ def label(e, env):
     return "<%s>" % e["k"]
 
 
-# every spelling of "not the first item" for an unsigned enumerate counter
+# every spelling of "not the first item" / "the first item" for an unsigned enumerate counter, after hir.as_branch has reduced comparisons to
+# `<` and `==` (`i != 0` -> else-branch of `i == 0`; `i > 0` -> `0 < i`; `i >= 1` -> else-branch of `i < 1`)
+NOT_FIRST = {"<(0,index)", "Lt(0,index)"}
+IS_FIRST = {"==(index,0)", "Eq(index,0)", "==(0,index)", "Eq(0,index)", "<(index,1)", "Lt(index,1)"}
 JOIN_CONDS = {"!=(index,0)", "Ne(index,0)", ">(index,0)", "Gt(index,0)", "!=(0,index)", "Ne(0,index)", "<(0,index)", "Lt(0,index)",
               ">=(index,1)", "Ge(index,1)", "<=(1,index)", "Le(1,index)"}
 
@@ -227,8 +230,12 @@ class Emit:
             body = self.block(inner["body"], env, depth, owner)
             # recognise the join idiom: [('if', 'i != 0', seps, []), item]
             # join idiom: the separator is written before every item except the first -- the condition must be exactly `index != 0`
-            if len(body) == 2 and isinstance(body[0], tuple) and body[0][0] == "if" and not body[0][3] and body[0][1] in JOIN_CONDS:
-                return [("join", src_l, body[0][2], body[1])]
+            if len(body) == 2 and isinstance(body[0], tuple) and body[0][0] == "if":
+                _, c_, th_, el_ = body[0]
+                if c_ in NOT_FIRST and th_ and not el_:
+                    return [("join", src_l, th_, body[1])]
+                if c_ in IS_FIRST and el_ and not th_:
+                    return [("join", src_l, el_, body[1])]
             return [("loop", src_l, body)]
         if k == "Match":
             arms = {}
